@@ -561,6 +561,9 @@ func c15ProductSum(text []byte) (sum uint32, ok bool) {
 }
 
 func c15Show(b []byte) string {
+	if len(b) > 8<<20 {
+		return fmt.Sprintf("%q...(%d bytes, ending in %q)", b[:400], len(b), b[len(b)-300:])
+	}
 	if len(b) > 400 {
 		return fmt.Sprintf("%q...(%d bytes, sha %s)", b[:400], len(b), verifkit.Hash(string(b)))
 	}
